@@ -186,24 +186,32 @@ fn judge_pair(rec: &mut Rec, p: &Pair) {
         rec.bin(SKIP_START);
         return;
     };
-    let r = trap(|| {
-        let sinces: [(&'static str, i128); 9] = [
-            ("nanos_since", a.nanos_since(&b)),
-            ("micros_since", a.micros_since(&b)),
-            ("millis_since", a.millis_since(&b)),
-            ("seconds_since", a.seconds_since(&b) as i128),
-            ("minutes_since", a.minutes_since(&b) as i128),
-            ("hours_since", a.hours_since(&b) as i128),
-            ("days_since", a.days_since(&b) as i128),
-            ("months_since", a.months_since(&b) as i128),
-            ("years_since", a.years_since(&b) as i128),
-        ];
-        (a == b, a.cmp(&b), a.partial_cmp(&b), a < b, a > b, b.cmp(&a), sinces)
-    });
+    // each *_since in its own trap: a panic there gives no sign to compare (the totality of the
+    // differences is C06/C07's claim), a panic in ==/cmp is this property's
+    type SinceFn = fn(&DateTime, &DateTime) -> i128;
+    let fns: [(&'static str, SinceFn); 9] = [
+        ("nanos_since", |a, b| a.nanos_since(b)),
+        ("micros_since", |a, b| a.micros_since(b)),
+        ("millis_since", |a, b| a.millis_since(b)),
+        ("seconds_since", |a, b| a.seconds_since(b) as i128),
+        ("minutes_since", |a, b| a.minutes_since(b) as i128),
+        ("hours_since", |a, b| a.hours_since(b) as i128),
+        ("days_since", |a, b| a.days_since(b) as i128),
+        ("months_since", |a, b| a.months_since(b) as i128),
+        ("years_since", |a, b| a.years_since(b) as i128),
+    ];
+    let mut sinces: Vec<(&'static str, i128)> = vec![];
+    for (name, f) in fns.iter() {
+        match trap(|| f(&a, &b)) {
+            Ok(v) => sinces.push((name, v)),
+            Err(_) => rec.bin("note/a-since-panicked(other-property)"),
+        }
+    }
+    let r = trap(|| (a == b, a.cmp(&b), a.partial_cmp(&b), a < b, a > b, b.cmp(&a), sinces.clone()));
     rec.api("DateTime::cmp/eq");
     let wit = |obs: serde_json::Value| json!({"a": {"instant": show(p.i), "offset": p.o1}, "b": {"instant": show(p.j), "offset": p.o2}, "class": p.class, "model_cmp": ord_name(exp), "observed": obs});
     match r {
-        Err(pn) => rec.violation(format!("C03|pairs|DateTime cmp/since|panic|{},{}", pn.class, pn.site()), || wit(pn.to_json())),
+        Err(pn) => rec.violation(format!("C03|pairs|DateTime ==/cmp|panic|{},{}", pn.class, pn.site()), || wit(pn.to_json())),
         Ok((eq, c, pc, lt, gt, rc, sinces)) => {
             let consistent = eq == (exp == Ordering::Equal) && c == exp && pc == Some(exp) && lt == (exp == Ordering::Less) && gt == (exp == Ordering::Greater) && rc == exp.reverse();
             if !consistent {
@@ -234,20 +242,24 @@ fn judge_date_pair(rec: &mut Rec, d1: i64, d2: i64) {
         rec.bin(SKIP_START);
         return;
     };
-    let r = trap(|| {
-        (a == b, a.cmp(&b), a < b, a.days_since(&b) as i128, a.months_since(&b) as i128, a.years_since(&b) as i128)
-    });
+    let since = |f: &dyn Fn() -> i128| trap(f).ok();
+    let (ds, ms, ys) = (since(&|| a.days_since(&b) as i128), since(&|| a.months_since(&b) as i128), since(&|| a.years_since(&b) as i128));
+    if ds.is_none() || ms.is_none() || ys.is_none() {
+        rec.bin("note/a-since-panicked(other-property)");
+    }
+    let r = trap(|| (a == b, a.cmp(&b), a < b));
     let wit = |obs: serde_json::Value| {
         let (x, y) = (cal::ymd(d1), cal::ymd(d2));
         json!({"a": [x.0, x.1, x.2], "b": [y.0, y.1, y.2], "days": [d1, d2], "model_cmp": ord_name(exp), "observed": obs})
     };
     match r {
-        Err(p) => rec.violation(format!("C03|datepairs|Date cmp/since|panic|{},{}", p.class, p.site()), || wit(p.to_json())),
-        Ok((eq, c, lt, ds, ms, ys)) => {
+        Err(p) => rec.violation(format!("C03|datepairs|Date ==/cmp|panic|{},{}", p.class, p.site()), || wit(p.to_json())),
+        Ok((eq, c, lt)) => {
             if eq != (exp == Ordering::Equal) || c != exp || lt != (exp == Ordering::Less) {
                 rec.violation(format!("C03|datepairs|Date ==/cmp|disagrees-with-day-order|model={}", ord_name(exp)), || wit(json!({"eq": eq, "cmp": ord_name(c), "lt": lt})));
             }
             for (name, v) in [("days_since", ds), ("months_since", ms), ("years_since", ys)] {
+                let Some(v) = v else { continue };
                 if !sign_ok(exp, v) {
                     rec.violation(format!("C03|datepairs|Date::{}|sign-contradicts-order|model={}", name, ord_name(exp)), || wit(json!({"since": name, "value": v.to_string()})));
                 }
